@@ -19,7 +19,7 @@ from vlib import build, driver, model as M, rigp, runner
 PID = "C04"
 KINDS_C = ["ok", "rid+1", "rid-1", "rid0", "ridneg", "rid+2^32", "rid-2^32", "stale", "comm_prefix", "comm_suffix", "comm_empty", "comm_case", "version", "trunc", "late", "dup"]
 KINDS_3 = ["ok", "rid+1", "rid-1", "rid0", "ridneg", "rid+2^32", "rid-2^32", "stale", "msgid", "msgid+2^32", "user", "engine", "version", "trunc", "late", "dup", "report",
-           "report_engine", "report_user", "report_msgid"]
+           "report_engine", "report_user", "report_msgid", "rid+1_privflag0", "stale_privflag0"]
 T_SHORT = 0.25
 
 
@@ -68,6 +68,15 @@ class Script:
             elif k == "msgid+2^32":
                 d["mid"] = req.m["msg_id"] + (1 << 32)
                 ov["msg_id"] = d["mid"]
+            elif k == "rid+1_privflag0":
+                # (meaningful with privacy: ciphertext whose clear-text flags deny it) must be skipped like any wrong request-id
+                d["rid"] = (req.request_id + 1) & 0x7FFFFFFF
+                if req.m["flags"] & 2:
+                    ov["flags"], ov["encrypt"] = req.m["flags"] & 1, True
+            elif k == "stale_privflag0":
+                d["rid"] = prev[0] if prev else (req.request_id ^ 0x3333)
+                if req.m["flags"] & 2:
+                    ov["flags"], ov["encrypt"] = req.m["flags"] & 1, True
             elif k == "stale":
                 d["rid"] = prev[0] if prev else (req.request_id ^ 0x5555)
                 if req.version == 3 and prev:
